@@ -865,6 +865,67 @@ package calendar
 //@     a := l.GetYearNineStarBySect(1)
 //@     assert(0 <= a.index && a.index <= 8)
 
+//@ # year star, part 2: under each of the three conventions the sixty-cycle scan finds the position of the pillar year
+//@ # ((pillar year - 4) mod 60: the lunar year, the year by the Lichun day, the year by the Lichun instant); together
+//@ # with yearStarArith this is the rule (2026 - pillar year) mod 9. The last step - pushing these equalities through
+//@ # the 120-alternative scan inside getYearNineStar - is not closed by the solvers and stays with the stand-in nine_star.
+//@ ghost func yearStarPositions(l *Lunar) [C16]
+//@   requires l.year <= l.solar.year && 1 <= l.year
+//@   body
+//@     jiaZiOfPair(l.yearGanIndex, l.yearZhiIndex)
+//@     jiaZiOfPair(l.yearGanIndexByLiChun, l.yearZhiIndexByLiChun)
+//@     jiaZiOfPair(l.yearGanIndexExact, l.yearZhiIndexExact)
+//@     cycOfNumber(l.year-4)
+//@     cycOfNumber(pyLiChunDay(l)-4)
+//@     cycOfNumber(pyLiChunExact(l)-4)
+//@     assert(LunarUtil.GetJiaZiIndex(l.GetYearInGanZhi()) == modf(l.year-4, 60))
+//@     assert(LunarUtil.GetJiaZiIndex(l.GetYearInGanZhiByLiChun()) == modf(pyLiChunDay(l)-4, 60))
+//@     assert(LunarUtil.GetJiaZiIndex(l.GetYearInGanZhiExact()) == modf(pyLiChunExact(l)-4, 60))
+//@     assert(pyLiChunDay(l)-l.year >= -1 && pyLiChunDay(l)-l.year <= 1 && pyLiChunExact(l)-l.year >= -1 && pyLiChunExact(l)-l.year <= 1)
+
+//@ # day star: counts up from star one (index 0) on the jiazi day nearest the winter solstice and down from star nine
+//@ # (index 8) on the jiazi day nearest the summer solstice; a day's sixty-cycle position is (day number - 11) mod 60,
+//@ # so the nearest jiazi day of day j is j - c for c <= 29 and j + 60 - c otherwise. Before the first of them in the
+//@ # table the count runs down towards it (continuing the previous summer's descent).
+//@ spec func nearJiaZi(j int) int
+//@   = ite(modf(j-11, 60) > 29, j+60-modf(j-11, 60), j-modf(j-11, 60))
+//@ spec func dayStar(l *Lunar) int
+//@   = ite(nearJiaZi(jqDay(l, 1)) <= sjdn(l.solar) && sjdn(l.solar) < nearJiaZi(jqDay(l, 13)), modf(sjdn(l.solar)-nearJiaZi(jqDay(l, 1)), 9),
+//@       ite(nearJiaZi(jqDay(l, 13)) <= sjdn(l.solar) && sjdn(l.solar) < nearJiaZi(jqDay(l, 25)), 8-modf(sjdn(l.solar)-nearJiaZi(jqDay(l, 13)), 9),
+//@         ite(sjdn(l.solar) >= nearJiaZi(jqDay(l, 25)), modf(sjdn(l.solar)-nearJiaZi(jqDay(l, 25)), 9), modf(8+nearJiaZi(jqDay(l, 1))-sjdn(l.solar), 9))))
+//@ func (lunar *Lunar) GetDayNineStar() *NineStar [C16 C08]
+//@   requires 2 <= lunar.solar.year && lunar.solar.year <= 9997
+//@   ensures result.index == dayStar(lunar)
+//@   ghost la *Lunar = dongZhi.GetLunar() @ xiaZhi#1
+//@   ghost lb *Lunar = xiaZhi.GetLunar() @ xiaZhi#1
+//@   ghost lc *Lunar = dongZhi2.GetLunar() @ xiaZhi#1
+//@   use jiaZiOfPair(la.dayGanIndex, la.dayZhiIndex) @ xiaZhi#1
+//@   use jiaZiOfPair(lb.dayGanIndex, lb.dayZhiIndex) @ xiaZhi#1
+//@   use jiaZiOfPair(lc.dayGanIndex, lc.dayZhiIndex) @ xiaZhi#1
+//@   use cycOfNumber(jqDay(lunar, 1)-11) @ xiaZhi#1
+//@   use cycOfNumber(jqDay(lunar, 13)-11) @ xiaZhi#1
+//@   use cycOfNumber(jqDay(lunar, 25)-11) @ xiaZhi#1
+//@   cut dongZhiIndex#1: dongZhiIndex == modf(jqDay(lunar, 1)-11, 60)
+//@   cut dongZhiIndex2#1: dongZhiIndex2 == modf(jqDay(lunar, 25)-11, 60)
+//@   cut xiaZhiIndex#1: xiaZhiIndex == modf(jqDay(lunar, 13)-11, 60)
+//@   ghost ia int = dongZhiIndex @ xiaZhiIndex#1
+//@   ghost ic int = dongZhiIndex2 @ xiaZhiIndex#1
+//@   ghost ib int = xiaZhiIndex @ xiaZhiIndex#1
+//@   cut solarShunBai#2: solarShunBai != nil && inYears(solarShunBai.year) && sjdn(solarShunBai) == nearJiaZi(jqDay(lunar, 1))
+//@   cut solarShunBai2#2: solarShunBai2 != nil && inYears(solarShunBai2.year) && sjdn(solarShunBai2) == nearJiaZi(jqDay(lunar, 25))
+//@   cut solarNiZi#2: solarNiZi != nil && inYears(solarNiZi.year) && sjdn(solarNiZi) == nearJiaZi(jqDay(lunar, 13))
+//@   use solarOrder(lunar.solar, solarShunBai) @ solarNiZiYmd#1
+//@   use solarOrder(lunar.solar, solarShunBai2) @ solarNiZiYmd#1
+//@   use solarOrder(lunar.solar, solarNiZi) @ solarNiZiYmd#1
+//@   hint solarNiZiYmd#1: (strings.Compare(solarYmd, solarShunBaiYmd) >= 0) == (sjdn(lunar.solar) >= nearJiaZi(jqDay(lunar, 1))) &&
+//@                        (strings.Compare(solarYmd, solarNiZiYmd) >= 0) == (sjdn(lunar.solar) >= nearJiaZi(jqDay(lunar, 13))) &&
+//@                        (strings.Compare(solarYmd, solarShunBaiYmd2) >= 0) == (sjdn(lunar.solar) >= nearJiaZi(jqDay(lunar, 25)))
+//@   cut offset#2: offset == dayStar(lunar) && 0 <= offset && offset <= 8
+//@   split ite(ia > 29, 1, 0) in 0..1
+//@   split ite(ic > 29, 1, 0) in 0..1
+//@   split ite(ib > 29, 1, 0) in 0..1
+//@   split ite(sjdn(lunar.solar) < nearJiaZi(jqDay(lunar, 1)), 0, ite(sjdn(lunar.solar) < nearJiaZi(jqDay(lunar, 13)), 1, ite(sjdn(lunar.solar) < nearJiaZi(jqDay(lunar, 25)), 2, 3))) in 0..3
+
 //@ # month star: eight-white (7) in the yin month of a zi/wu/mao/you year, then minus one per month branch
 //@ spec func monthStar(yz int, mz int) int
 //@   = modf(25-3*modf(yz, 3)-modf(mz-2, 12), 9)
